@@ -20,6 +20,45 @@ CHECKS = {
                   'transcription of the documented rule, not theorems. undo with several target pairs in order is covered '
                   'by correspondence only.',
         design='§4 C12'),
+    'C01': dict(
+        technique='Coq proofs (collapse refinement, tableau homomorphism, generated prepend/dispatch obligations, verified GF(2) '
+                  'oracle) + oracle correspondence of the real TableauSimulator against the extracted specification',
+        text='Proof: (G) all Tableau::prepend_* row programs and the unitary part of TableauSimulator::do_gate are regenerated from '
+             'source and proved to realise the gate table action / its inverse; (H) the collapse step of collapse_qubit_z is modelled '
+             'and proved to refine the specification\'s random-measurement rule for any tableau size (collapse_local_at, '
+             'collapse_refines_measure, spec_measure_group_char, eval_hom, central_is_scalar); (O) every record, peek/is_deterministic/'
+             'expectation answer and measure-after-peek of the real simulator (3 widths, index straddling 64/128/256, all gates, '
+             'feedback, MPP/SPP, REPEAT, `!`) must be a solution of the specification\'s symbolic sign forms, decided by the verified '
+             'GF(2) solver (sound+complete); free measurements must take both values.',
+        note=TB + ' The assembly of the per-step lemmas into one theorem over whole circuits (tabsim_refines_spec) is not finished: '
+                  'whole-circuit behaviour is tied by the oracle correspondence. The stabilizer measurement rule for n>2 qubits is '
+                  'the standard update rule (DESIGN section 6).',
+        design='§4 C01'),
+    'C02': dict(
+        technique='Coq proofs (frame laws, generated frame-routine obligations, uniform fibres, loop folding) + oracle correspondence '
+                  'and exact byte comparison on the bulk sampler',
+        text='Proof: (G) every unitary FrameSimulator routine and its dispatch is regenerated from source and proved equal to the '
+             'unsigned table action; frame laws frame_meas_det / frame_post_rnd / frame_extra_commuting / post_rnd_other_outcome / '
+             'shift_stab at the predicate level; fibers_equal (uniformity on the affine space); fold_loop_correct (compressed '
+             'reference sample). (O) every bulk shot is checked against the specification with the verified solver; 4096-shot runs '
+             'check unbiasedness at 7 sigma and uniformity over the 2^r reachable records; outcome-deterministic circuits must give '
+             'bytes identical to the documentation encoder through in-memory and forced-streaming paths, 6 formats, shot counts across '
+             'batch boundaries, 3 widths, tableau vs tree reference samples.',
+        note=TB + ' RNG quality and surjectivity of frame randomisation are tested (statistics / distinct-record counts), not proved; '
+                  'the induction over whole circuits is not assembled in Coq.',
+        design='§4 C02'),
+    'C09': dict(
+        technique='Coq round-trip proofs for the writer/reader models (r8 incl. write_bytes fast path, b8, 01, hits, decimal, '
+                  'transpose) + differential correspondence with the implementation and the documentation encoders, ASan on hostile input',
+        text='Proof: r8_roundtrip, r8_write_bytes_eq_write_bits, b8_roundtrip, f01_roundtrip, hits_roundtrip, read_print_dec, '
+             'transpose_involutive for the models of the writers/readers as implemented (any record length, any trailing data). '
+             'Tie H: the extracted models and the reference encoders from doc/result_formats.md are compared byte for byte with every '
+             'writer mode (bit, bytes, table, batch) and every reader entry point (dense, sparse, shot-major, shot-minor, '
+             'read_records_into) for 6 formats, 3 widths, widths 0..1030 incl. runs of 247..256 zeros at every alignment; '
+             '`stim convert` matrix; hostile/truncated bytes under ASan+UBSan with model-vs-implementation accept/reject verdicts.',
+        note=TB + ' dets and ptb64 have no format-level theorem (decimal and transpose lemmas only); memory safety is measured by '
+                  'ASan, not proved.',
+        design='§4 C09'),
 }
 
 PENDING = 'check not yet built in this round (see DESIGN.md §7 phasing); the Coq model for it is planned, not claimed'
